@@ -186,6 +186,58 @@ func tlsFacts(repo string) (string, error) {
 		})
 		facts["dialerConnUsesDialContextResult"] = ok2
 	}
+	// ---- the third connection path: kafka.NewWriter(WriterConfig{Dialer: …}) converts the pre-0.4 Dialer into a Transport.
+	// The security settings must be copied whatever the other settings are: `SASL: <dialer>.SASLMechanism` and
+	// `TLS: <dialer>.TLS` as fields of the Transport literal, or as assignments that are not under any `if`
+	// (seed C18-m11 copied both only when TLS was set: SASL without TLS went out unauthenticated).
+	facts["newWriterCopiesSaslAndTlsUnconditionally"] = false
+	if wf, err := parse("writer.go"); err == nil {
+		if fd := find(wf, "", "NewWriter"); fd != nil {
+			saslOK, tlsOK := false, false
+			check := func(key string, val ast.Expr) {
+				v := txt(val)
+				if key == "SASL" && strings.HasSuffix(v, ".SASLMechanism") {
+					saslOK = true
+				}
+				if key == "TLS" && strings.HasSuffix(v, ".TLS") {
+					tlsOK = true
+				}
+			}
+			var walk func(n ast.Node, underIf bool)
+			walk = func(n ast.Node, underIf bool) {
+				ast.Inspect(n, func(x ast.Node) bool {
+					switch y := x.(type) {
+					case *ast.IfStmt:
+						if y.Init != nil {
+							walk(y.Init, underIf)
+						}
+						walk(y.Body, true)
+						if y.Else != nil {
+							walk(y.Else, true)
+						}
+						return false
+					case *ast.CompositeLit:
+						if !underIf && strings.HasSuffix(txt(y.Type), "Transport") {
+							for _, el := range y.Elts {
+								if kv, ok := el.(*ast.KeyValueExpr); ok {
+									check(txt(kv.Key), kv.Value)
+								}
+							}
+						}
+					case *ast.AssignStmt:
+						if !underIf && len(y.Lhs) == 1 && len(y.Rhs) == 1 {
+							if sel, ok := y.Lhs[0].(*ast.SelectorExpr); ok {
+								check(sel.Sel.Name, y.Rhs[0])
+							}
+						}
+					}
+					return true
+				})
+			}
+			walk(fd.Body, false)
+			facts["newWriterCopiesSaslAndTlsUnconditionally"] = saslOK && tlsOK
+		}
+	}
 	var names []string
 	for k := range facts {
 		names = append(names, k)
